@@ -118,7 +118,7 @@ func init() {
 }
 
 func init() {
-	getters := []string{"VerifC02GetIP4", "VerifC02GetIP6", "VerifC02GetUDP", "VerifC02GetTCP", "VerifC02GetARP", "VerifC02GetICMP", "VerifC02GetDNS", "VerifC02GetDHCP4"}
+	getters := []string{"VerifC02GetIP4", "VerifC02GetIP6", "VerifC02GetUDP", "VerifC02GetTCP", "VerifC02GetARP", "VerifC02GetICMP", "VerifC02GetDNS", "VerifC02GetDHCP4", "VerifC02GetLLDP"}
 	register(&Prop{
 		ID:        "C02",
 		Technique: "differential symbolic execution: real Parse / getters vs an RFC reference decoder executed side by side, equality asserted by SMT on every path",
@@ -132,7 +132,7 @@ func init() {
 		Bounds: func(tier string) map[string]string {
 			return map[string]string{
 				"Session.Parse vs reference": "all byte strings of length 0..1536, all capacities, all contents (every EtherType, IP protocol, port pair, length field); symbolic host/router MAC; empty tables",
-				"getters":                    "IP4 (15), IP6 (10), UDP (6), TCP (18), ARP (9), ICMP/ICMPEcho (9), DNS header (13), DHCP4 fixed fields (13, view length 0..244): view length 0..1536, all contents, IsValid()==nil assumed",
+				"getters":                    "IP4 (15), IP6 (10), UDP (6), TCP (18), ARP (9), ICMP/ICMPEcho (9), DNS header (13), DHCP4 fixed fields (13, view length 0..244), LLDP TLV getters (ChassisID, PortID, GetPDU; 9-bit TLV length): view length 0..1536, all contents, IsValid()==nil assumed",
 			}
 		},
 		Assumptions: []string{
